@@ -5,6 +5,7 @@ import (
 	"go/constant"
 	"go/token"
 	"go/types"
+	"sort"
 	"strings"
 
 	"golang.org/x/tools/go/ssa"
@@ -1100,16 +1101,86 @@ func forwardEx(starts []startPoint, visit func(in ssa.Instruction) searchAction,
 	// an item may carry the constant boolean results with which an immediately-invoked literal was left:
 	// if the caller branches on such a result right after the call, only the matching edge is followed
 	// (`x, ok := func() (T, bool) { … return zero, false … }(); if !ok { … }`)
+	// an item also carries the boolean flags known on its path: a phi of bool type whose incoming value on
+	// the edge taken is a constant (`accepted := true; if bad { accepted = false }; … if accepted {`), or a
+	// local bool cell last stored a constant. A later branch on such a flag follows only the matching edge.
 	type item struct {
-		b    *ssa.BasicBlock
-		i    int
-		site *ssa.Call
-		key  string
+		b     *ssa.BasicBlock
+		i     int
+		site  *ssa.Call
+		key   string
+		flags map[ssa.Value]bool
 	}
 	type seenKey struct {
 		b   *ssa.BasicBlock
 		i   int
 		key string
+	}
+	flagKey := func(fl map[ssa.Value]bool) string {
+		if len(fl) == 0 {
+			return ""
+		}
+		var ks []string
+		for v, b := range fl {
+			t := "F"
+			if b {
+				t = "T"
+			}
+			ks = append(ks, v.Name()+"@"+fnLabel(v.Parent())+t)
+		}
+		sort.Strings(ks)
+		return "|" + strings.Join(ks, ",")
+	}
+	cloneFlags := func(fl map[ssa.Value]bool) map[ssa.Value]bool {
+		if len(fl) == 0 {
+			return nil
+		}
+		n := make(map[ssa.Value]bool, len(fl))
+		for k, v := range fl {
+			n[k] = v
+		}
+		return n
+	}
+	// flagsOnEdge: the flags known after moving from block b to its successor s
+	flagsOnEdge := func(fl map[ssa.Value]bool, b, s *ssa.BasicBlock) map[ssa.Value]bool {
+		var out map[ssa.Value]bool
+		for _, in := range s.Instrs {
+			phi, isPhi := in.(*ssa.Phi)
+			if !isPhi {
+				break
+			}
+			if bt, ok := phi.Type().Underlying().(*types.Basic); !ok || bt.Kind() != types.Bool {
+				continue
+			}
+			for pi, pr := range s.Preds {
+				if pr != b || pi >= len(phi.Edges) {
+					continue
+				}
+				if bv, isC := constBool(phi.Edges[pi]); isC {
+					if out == nil {
+						out = cloneFlags(fl)
+						if out == nil {
+							out = map[ssa.Value]bool{}
+						}
+					}
+					out[phi] = bv
+				} else if kv, ok := fl[phi.Edges[pi]]; ok {
+					if out == nil {
+						out = cloneFlags(fl)
+					}
+					out[phi] = kv
+				} else if _, had := fl[phi]; had {
+					if out == nil {
+						out = cloneFlags(fl)
+					}
+					delete(out, phi)
+				}
+			}
+		}
+		if out == nil {
+			return fl
+		}
+		return out
 	}
 	known := map[string]map[int]bool{}
 	// seen is keyed by (block, first index, result context) so that a continuation after an IIFE call can
@@ -1122,7 +1193,7 @@ func forwardEx(starts []startPoint, visit func(in ssa.Instruction) searchAction,
 	for len(stack) > 0 {
 		it := stack[len(stack)-1]
 		stack = stack[:len(stack)-1]
-		sk := seenKey{it.b, it.i, it.key}
+		sk := seenKey{it.b, it.i, it.key + flagKey(it.flags)}
 		if seen[sk] {
 			continue
 		}
@@ -1130,6 +1201,22 @@ func forwardEx(starts []startPoint, visit func(in ssa.Instruction) searchAction,
 		stopped := false
 		for k := it.i; k < len(it.b.Instrs); k++ {
 			in := it.b.Instrs[k]
+			// a local bool cell: remember the constant last stored, forget on any other store
+			if st, isSt := in.(*ssa.Store); isSt {
+				if al, isAl := cellRoot(st.Addr).(*ssa.Alloc); isAl {
+					if bt, ok := deref(al.Type()).Underlying().(*types.Basic); ok && bt.Kind() == types.Bool {
+						it.flags = cloneFlags(it.flags)
+						if bv, isC := constBool(st.Val); isC {
+							if it.flags == nil {
+								it.flags = map[ssa.Value]bool{}
+							}
+							it.flags[al] = bv
+						} else if it.flags != nil {
+							delete(it.flags, al)
+						}
+					}
+				}
+			}
 			// the return of an immediately-invoked literal is not an exit: control continues after its call
 			if ret, isRet := in.(*ssa.Return); isRet {
 				if site := iifeSiteCached(in.Parent()); site != nil {
@@ -1149,7 +1236,7 @@ func forwardEx(starts []startPoint, visit func(in ssa.Instruction) searchAction,
 						key = site.Name() + ":" + key
 						known[key] = kn
 					}
-					stack = append(stack, item{b: site.Block(), i: instrIndex(site) + 1, site: site, key: key})
+					stack = append(stack, item{b: site.Block(), i: instrIndex(site) + 1, site: site, key: key, flags: it.flags})
 					stopped = true
 					break
 				}
@@ -1169,9 +1256,24 @@ func forwardEx(starts []startPoint, visit func(in ssa.Instruction) searchAction,
 			// descend into an immediately-invoked function literal: its body runs here
 			if call, ok := in.(*ssa.Call); ok {
 				if g := iifeCallee(call); g != nil {
-					stack = append(stack, item{b: g.Blocks[0], i: 0})
+					stack = append(stack, item{b: g.Blocks[0], i: 0, flags: it.flags})
 					stopped = true // the continuation after the call is scheduled from g's returns
 					break
+				}
+				// any other call may run a function literal that writes a captured bool cell
+				if len(it.flags) > 0 {
+					var drop []ssa.Value
+					for v := range it.flags {
+						if al, isAl := v.(*ssa.Alloc); isAl && al.Heap {
+							drop = append(drop, v)
+						}
+					}
+					if len(drop) > 0 {
+						it.flags = cloneFlags(it.flags)
+						for _, v := range drop {
+							delete(it.flags, v)
+						}
+					}
 				}
 			}
 			switch in.(type) {
@@ -1211,6 +1313,30 @@ func forwardEx(starts []startPoint, visit func(in ssa.Instruction) searchAction,
 				}
 			}
 		}
+		// a branch on a known flag
+		if only < 0 && len(it.flags) > 0 && len(it.b.Instrs) > 0 {
+			if ifi, isIf := it.b.Instrs[len(it.b.Instrs)-1].(*ssa.If); isIf {
+				v, neg := ifi.Cond, false
+				for {
+					u, isU := v.(*ssa.UnOp)
+					if !isU || u.Op != token.NOT {
+						break
+					}
+					v, neg = u.X, !neg
+				}
+				var fv ssa.Value = v
+				if ld, isLd := v.(*ssa.UnOp); isLd && ld.Op == token.MUL {
+					fv = cellRoot(ld.X)
+				}
+				if bv, ok := it.flags[fv]; ok {
+					if bv != neg {
+						only = 0
+					} else {
+						only = 1
+					}
+				}
+			}
+		}
 		for i, s := range it.b.Succs {
 			if blocked[cfgEdge{it.b, i}] {
 				continue
@@ -1218,7 +1344,7 @@ func forwardEx(starts []startPoint, visit func(in ssa.Instruction) searchAction,
 			if only >= 0 && i != only {
 				continue
 			}
-			stack = append(stack, item{b: s, i: 0})
+			stack = append(stack, item{b: s, i: 0, flags: flagsOnEdge(it.flags, it.b, s)})
 		}
 	}
 	return
@@ -1330,6 +1456,12 @@ func decodeIf(ifi *ssa.If) Cond {
 	}
 	if b, ok := v.(*ssa.BinOp); ok {
 		c.Op, c.X, c.Y = b.Op, b.X, b.Y
+		// canonical orientation: a constant operand stands on the right (`nil != err`, `' ' == c[0]`, `0 < n`)
+		if _, xk := b.X.(*ssa.Const); xk {
+			if _, yk := b.Y.(*ssa.Const); !yk {
+				c.Op, c.X, c.Y = flipOp(b.Op), b.Y, b.X
+			}
+		}
 	} else {
 		// a plain boolean value: treat as V != false
 		c.Op, c.X, c.Y = token.NEQ, v, nil
